@@ -121,6 +121,12 @@ class UnionMatcher(AdditiveBiMatcher):
 
     _id = None
 
+    def reset(self):
+        # Forget the cached ID along with the sub-matchers' positions
+        self._id = None
+        self.a.reset()
+        self.b.reset()
+
     def replace(self, minquality=0):
         a = self.a
         b = self.b
